@@ -422,4 +422,71 @@ def run(ctx):
         for p in last:
             if p.ret_shape() != "Ok(None)":
                 ctx.check(p.ret_shape().startswith("Err("), "C15-d", ce.key, "anything else on the last byte is an error", "returns %s" % p.ret_shape(), "")
-    ctx.assume("Huffman padding longer than 7 bits and round trips are value-level: not decided (DESIGN.md C15); C15-d decides only that the padding bits examined must all be ones")
+    # ------------------------------------------------------------ C15-d the end of a string is decided from the last symbol's end
+    # check_eof looks only at the bits of the lookup that could not be satisfied; what earlier lookups of the same, incomplete code
+    # consumed - and everything, when the next lookup starts exactly at the end of the input - is not seen by it. The place that turns
+    # `end of input` into `end of string` (DecodeIter::next -> None) therefore has to examine the input from where the last symbol ended.
+    DN = P + "decode::HuffmanDecoder::decode_next"
+    di = ru.need(ctx, "C15-d", "<h3::qpack::prefix_string::decode::DecodeIter as core::iter::traits::iterator::Iterator>::next")
+    if di:
+        ps = [p for p in ru.all_paths(ctx, "C15-d", di, max_visits=1) if p.end == "return"]
+        nones = [p for p in ps if p.ret_shape() == "None"]
+        ctx.floor("C15-d", "paths of DecodeIter::next that end the string", len(nones), 1)
+        for p in nones:
+            ctx.check(p.outcomes(DN) == ["Ok", "None"], "C15-d", di.key, "the string ends only where the table walk met the end of the input",
+                      "DecodeIter::next answers None on a path where decode_next %s: leftover bits are accepted without the end-of-input check "
+                      "(check_eof) having seen them" % ("was not consulted" if not p.has_call(DN) else "answered %s" % p.outcomes(DN)), "", None, p.describe())
+        cblocks = {bb for bb, t in di.calls(DN)}
+        callargs = {a.place.local for bb, t in di.calls(DN) for a in t.args if a.place is not None and a.place.is_local()}
+
+        def seeds_for(p, field, before):
+            """locals assigned from a read of self.<field> in the blocks of path p that lie before (True) / anywhere (False) the walk"""
+            cut = min([i for i, bb in enumerate(p.blocks) if bb in cblocks] or [len(p.blocks)])
+            blocks = set(p.blocks[:cut + 1]) if before else set(p.blocks)
+            out = {}
+            for bb, i, st in di.all_stmts():
+                if bb not in blocks or st.s != "assign" or not st.place.is_local() or st.place.local in callargs:
+                    continue
+                if st.rv.rv in ("ref", "rawptr") and st.rv.bk != "shared":
+                    continue        # a `&mut self.bit_pos` is what the walk advances, not a remembered position
+                pls = ([st.rv.place] if st.rv.place is not None else []) + [o.place for o in st.rv.ops if o.place is not None]
+                if any(field in pl.fields() for pl in pls):
+                    out[st.place.local] = {field}
+            return out
+        for p in nones:
+            if p.outcomes(DN) != ["Ok", "None"]:
+                continue
+            seeds = seeds_for(p, "bit_pos", True)
+            for l, v in seeds_for(p, "content", False).items():
+                seeds.setdefault(l, set()).update(v)
+            taint = ru.taint_locals(di, seeds, skip_calls=cblocks)       # what the walk returns is not a remembered position
+            cut = min(i for i, bb in enumerate(p.blocks) if bb in cblocks)
+            both = [bb for bb in p.blocks[cut + 1:] if di.blocks[bb].term.t == "switch" and di.blocks[bb].term.op.place is not None and
+                    taint.get(di.blocks[bb].term.op.place.local, set()) >= {"bit_pos", "content"}]
+            ctx.check(bool(both), "C15-d", di.key, "the leftover bits are examined from where the last symbol ended",
+                      "DecodeIter::next answers None after decode_next reported the end of the input without a decision that depends both on the "
+                      "position remembered BEFORE the table walk (position snapshot taken: %s) and on the input bytes: padding bits the walk "
+                      "consumed on its way (e.g. the five bits 01010 or the seven bits 1111100 after the last symbol) are accepted although they "
+                      "are not a prefix of the EOS code (RFC 7541 5.2)" % bool(seeds_for(p, "bit_pos", True)), "", None, p.describe())
+        # .. and a padding of eight bits or more is refused: every accepting path that looks at leftover bytes bounds their number
+        for p in nones:
+            if p.outcomes(DN) != ["Ok", "None"]:
+                continue
+            lens = lambda v: (v[0] == "unop" and v[1] == "PtrMetadata") or (v[0] == "call" and pa.short(v[1]) == "len")
+            if not any(expr.mentions(t[3], lens) for t in p.tests):
+                continue
+            lo, hi, _ = expr.interval([(t[3], t[2]) for t in p.tests], lens, consts)
+            if lo == 0 and hi == 0:
+                continue
+            ctx.check(hi is not None and hi <= 1, "C15-d", di.key, "padding of eight or more bits is refused",
+                      "DecodeIter::next accepts the end of the string on a path that allows any number of leftover bytes (between %s and %s) as long "
+                      "as they are all ones: a string followed by a whole byte ff, or by the 30 ones of the EOS symbol, decodes successfully; RFC "
+                      "7541 5.2 requires padding strictly longer than 7 bits, and the EOS symbol, to be decoding errors" % (lo, "any number" if hi is None or hi > (1 << 60) else hi),
+                      "", None, p.describe())
+    fw = ru.need(ctx, "C15-d", P + "bitwin::BitWindow::forwards")
+    if fw:
+        # premise of the audited `8 - rest.bit` (tables/panic_sites.toml): forwards leaves bit reduced modulo 8
+        st_ = [st for bb, i, st in fw.all_stmts() if st.s == "assign" and "bit" in st.place.fields()[-1:]]
+        ok = bool(st_) and st_[-1].rv.rv == "binop" and st_[-1].rv.op == "Rem" and st_[-1].rv.ops[1].int == 8
+        ctx.check(ok, "C15-d", fw.key, "forwards leaves the bit offset reduced modulo 8", "the last store to `bit` in forwards is %s" % (st_[-1] if st_ else None), "")
+    ctx.assume("round trips are value-level: not decided (DESIGN.md C15); C15-d decides that the padding bits examined must all be ones and that they are examined from the last symbol's end")
